@@ -93,7 +93,14 @@ type PageTree struct {
 	root     core.Dict
 	resolver ObjectResolver
 	pages    []*Page // Cached flattened page list
+
+	onPath  map[int]bool // object numbers of the /Pages nodes between the root and the node being visited
+	visited int          // number of tree nodes visited so far
 }
+
+// maxPageTreeNodes bounds the work spent on a (damaged or hostile) page tree
+// whose nodes are shared between several parents.
+const maxPageTreeNodes = 1 << 20
 
 // NewPageTree creates a new page tree from the root pages dictionary
 func NewPageTree(root core.Dict, resolver ObjectResolver) *PageTree {
@@ -151,6 +158,8 @@ func (t *PageTree) loadPages() error {
 	t.pages = make([]*Page, 0)
 
 	// Start recursive traversal from root
+	t.onPath = make(map[int]bool)
+	t.visited = 0
 	if err := t.traversePageNode(t.root, nil); err != nil {
 		return fmt.Errorf("failed to traverse page tree: %w", err)
 	}
@@ -197,6 +206,16 @@ func (t *PageTree) traversePageNode(node core.Dict, parent core.Dict) error {
 
 		// Traverse each child
 		for i, kidObj := range kids {
+			// A kid that is one of its own ancestors would recurse forever
+			kidRef, isRef := kidObj.(core.IndirectRef)
+			if isRef && t.onPath[kidRef.Number] {
+				return fmt.Errorf("page tree contains a cycle through object %d", kidRef.Number)
+			}
+			t.visited++
+			if t.visited > maxPageTreeNodes {
+				return fmt.Errorf("page tree has more than %d nodes", maxPageTreeNodes)
+			}
+
 			// Resolve child reference
 			kidResolved, err := t.resolver.Resolve(kidObj)
 			if err != nil {
@@ -209,7 +228,14 @@ func (t *PageTree) traversePageNode(node core.Dict, parent core.Dict) error {
 			}
 
 			// Recursively traverse child (passing current node as parent)
-			if err := t.traversePageNode(kidDict, node); err != nil {
+			if isRef {
+				t.onPath[kidRef.Number] = true
+			}
+			err = t.traversePageNode(kidDict, node)
+			if isRef {
+				delete(t.onPath, kidRef.Number)
+			}
+			if err != nil {
 				return err
 			}
 		}
